@@ -290,4 +290,130 @@ example :
     s.live = [3, 2, 16777215, 1] ∧ s.counter = 4 ∧ s.late = false ∧ s.collisions = 0 ∧ s.hung = false := by
   decide +kernel
 
+/-! ## the atomic regions of the model are the ones the source locks -/
+
+/-- **Every call of `_next_channel` holds the transport lock** (call sites generated from the AST of transport.py
+    on this run): allocation (and, in `open_channel`, registration) is one atomic region, as `openLocal` /
+    `peerAlloc` of the model assume.  `no_collision` is a statement about the code only together with this. -/
+theorem next_channel_sites_locked :
+    PV.Generated.C23.next_channel_sites ≠ [] ∧ ∀ s ∈ PV.Generated.C23.next_channel_sites, s.2 = true := by
+  decide
+
+private theorem gotIds_set_got (l : List APc) (t id : Nat) (old : APc) (h : l[t]? = some old)
+    (ho : ∀ i, old ≠ .got i) : ∀ x, x ∈ gotIds (l.set t (.got id)) ↔ x = id ∨ x ∈ gotIds l := by
+  induction l generalizing t with
+  | nil => simp at h
+  | cons y ys ih =>
+    intro x
+    cases t with
+    | zero =>
+      simp only [List.getElem?_cons_zero, Option.some.injEq] at h
+      subst h
+      cases y with
+      | got i => exact absurd rfl (ho i)
+      | ready b => simp [gotIds]
+      | looked i => simp [gotIds]
+    | succ t =>
+      simp only [List.getElem?_cons_succ] at h
+      have := ih t h x
+      cases y with
+      | got i => simp only [List.set_cons_succ, gotIds, List.mem_cons, this]; constructor <;> (intro h; rcases h with h | h | h <;> simp [h])
+      | ready b => simpa [gotIds] using this
+      | looked i => simpa [gotIds] using this
+
+private theorem gotIds_nodup_set (l : List APc) (t id : Nat) (old : APc) (h : l[t]? = some old)
+    (ho : ∀ i, old ≠ .got i) (hn : (gotIds l).Nodup) (hid : id ∉ gotIds l) :
+    (gotIds (l.set t (.got id))).Nodup := by
+  induction l generalizing t with
+  | nil => simp at h
+  | cons y ys ih =>
+    cases t with
+    | zero =>
+      simp only [List.getElem?_cons_zero, Option.some.injEq] at h
+      subst h
+      cases y with
+      | got i => exact absurd rfl (ho i)
+      | ready b => exact List.nodup_cons.2 ⟨hid, hn⟩
+      | looked i => exact List.nodup_cons.2 ⟨hid, hn⟩
+    | succ t =>
+      simp only [List.getElem?_cons_succ] at h
+      cases y with
+      | got i =>
+        have hn' : i ∉ gotIds ys ∧ (gotIds ys).Nodup := List.nodup_cons.1 hn
+        have hid' : id ≠ i ∧ id ∉ gotIds ys := by
+          have : id ∉ i :: gotIds ys := hid
+          simpa [List.mem_cons, not_or] using this
+        show (i :: gotIds (ys.set t (.got id))).Nodup
+        refine List.nodup_cons.2 ⟨?_, ih t h hn'.2 hid'.2⟩
+        rw [gotIds_set_got ys t id old h ho]
+        intro hc
+        rcases hc with hc | hc
+        · exact hid'.1 hc.symm
+        · exact hn'.1 hc
+      | ready b => exact ih t h hn hid
+      | looked i => exact ih t h hn hid
+
+private def AInv (s : ASt) : Prop :=
+  (gotIds s.thr).Nodup ∧ (∀ id ∈ gotIds s.thr, id ∈ s.live) ∧ ∀ p ∈ s.thr, ∀ i, p ≠ .looked i ∧ p ≠ .ready false
+
+private theorem astep_inv (s : ASt) (t : Nat) (h : AInv s) : AInv (astep s t) := by
+  obtain ⟨h1, h2, h3⟩ := h
+  unfold astep
+  split
+  · rename_i hr
+    split
+    · rename_i id c' hn
+      have hfresh : id ∉ s.live := by
+        unfold nextChannel at hn
+        split at hn
+        · cases hn
+        · rename_i i hs
+          simp only [Option.some.injEq, Prod.mk.injEq] at hn
+          have := (scan_sound _ _ _ _ hs).1
+          rw [← hn.1]; simpa using this
+      have hnot : id ∉ gotIds s.thr := fun hm => hfresh (h2 id hm)
+      refine ⟨gotIds_nodup_set _ t id _ hr (by intro i h; cases h) h1 hnot, ?_, ?_⟩
+      · intro x hx
+        rw [gotIds_set_got _ t id _ hr (by intro i h; cases h)] at hx
+        rcases hx with rfl | hx
+        · exact List.mem_cons_self ..
+        · exact List.mem_cons_of_mem _ (h2 x hx)
+      · intro p hp i
+        rcases List.mem_or_eq_of_mem_set hp with hp | rfl
+        · exact h3 p hp i
+        · exact ⟨(by intro h; cases h), (by intro h; cases h)⟩
+    · exact ⟨h1, h2, h3⟩
+  · rename_i hr
+    exact absurd rfl (h3 _ (List.mem_of_getElem? hr) 0).2
+  · rename_i id hr
+    exact absurd rfl (h3 _ (List.mem_of_getElem? hr) id).1
+  · exact ⟨h1, h2, h3⟩
+
+/-- **If every caller holds the lock, concurrent allocations never return the same id** — any number of
+    threads, any interleaving of their steps, any starting counter and set of live ids. -/
+theorem locked_allocations_distinct (counter : Nat) (live : List Nat) (n : Nat) (sched : List Nat) :
+    (gotIds (arun { counter := counter, live := live, thr := List.replicate n (.ready true) } sched).thr).Nodup := by
+  have h0 : AInv { counter := counter, live := live, thr := List.replicate n (.ready true) } := by
+    have : ∀ k, gotIds (List.replicate k (APc.ready true)) = [] := by
+      intro k; induction k with
+      | zero => rfl
+      | succ k ih => simpa [List.replicate_succ, gotIds] using ih
+    refine ⟨(by rw [this]; exact List.nodup_nil), (by rw [this]; intro id h; cases h), ?_⟩
+    intro p hp i
+    simp only [List.mem_replicate] at hp
+    rw [hp.2]; exact ⟨(by intro h; cases h), (by intro h; cases h)⟩
+  have : ∀ (sch : List Nat) (s : ASt), AInv s → AInv (arun s sch) := by
+    intro sch
+    induction sch with
+    | nil => intro s h; exact h
+    | cons t ts ih => intro s h; exact ih _ (astep_inv s t h)
+  exact (this sched _ h0).1
+
+/-- … and one caller without the lock is enough for two channels with the same id: the unlocked caller looks
+    its id up, a locked caller allocates and registers that very id, the unlocked one then registers it too. -/
+theorem unlocked_allocation_collision_witness :
+    gotIds (arun { counter := 16777215, live := [], thr := [.ready false, .ready true] } [0, 1, 0]).thr
+      = [16777215, 16777215] := by
+  decide +kernel
+
 end PV.Props.C23
